@@ -16,6 +16,7 @@ GENERATORS = [
     ("C19", "slice_agent_loop.py", ["{S}/session.rs", "{H}/agent_loop_slice.rs", "{H}/request_gate_slice.rs"]),
     ("C19", "slice_doctor.py", ["{S}/server.rs", "{H}/doctor_summary_slice.rs"]),
     ("C14", "slice_checkpoint_files.py", ["{R}/crates/rip-tools/src/runtime.rs", "{H}/checkpoint_files_slice.rs"]),
+    ("C08", "slice_select_recent.py", ["{S}/context_compiler.rs", "{H}/select_recent_slice.rs"]),
 ]
 
 
